@@ -6,3 +6,6 @@ package verifhook
 
 // At marks a suspension point (no-op in this build).
 func At(string) {}
+
+// Get returns nil in this build.
+func Get() func(string) { return nil }
